@@ -870,3 +870,65 @@ Lemma in_by_compute : forall e l, existsb (fun x => aentry_same x e) l = true ->
 Proof.
   intros e l H. apply existsb_exists in H. destruct H as [x [Hin Hs]]. apply aentry_same_eq in Hs. subst. exact Hin.
 Qed.
+
+(* ================================================================== argv + --job-json-file (partial job JSON) *)
+Lemma denote_items_app : forall a b, snd (denote_items a) = true ->
+  denote_items (a ++ b) = (fst (denote_items a) ++ fst (denote_items b), snd (denote_items b)).
+Proof.
+  induction a as [|it a IH]; intros b H.
+  - cbn. destruct (denote_items b). reflexivity.
+  - cbn [app denote_items] in *. destruct (denote_item it) as [cs ok]. destruct ok; [|discriminate].
+    destruct (denote_items a) as [cs2 ok2] eqn:Ha. cbn [fst snd] in *. rewrite (IH b H).
+    cbn [fst snd]. rewrite app_assoc. reflexivity.
+Qed.
+
+Lemma json_partial_refines : forall j, Forall (wf_item argv_table) j -> snd (denote_items j) = true ->
+  front_json true (render_json j) = mk_fe_res (fst (denote_items j)) EFin.
+Proof.
+  intros j Hwf Hok. unfold front_json, render_json. rewrite check_schema_top. rewrite (members_ok_job j Hwf). cbn [negb].
+  destruct (j_top_job j (mk_jstate [] false []) Hwf) as [k Hk]. rewrite Hk. rewrite Hok.
+  rewrite rev'_rev, j_emits_calls. cbn [j_calls]. rewrite app_nil_r, rev_involutive. reflexivity.
+Qed.
+
+Lemma wf_pos_app : forall a b gi go, wf_pos (a ++ b) gi go = true -> wf_pos a gi go = true.
+Proof.
+  induction a as [|it a IH]; intros b gi go H; [reflexivity|].
+  cbn [app wf_pos] in *. apply andb_true_iff in H. destruct H as [H1 H2]. rewrite H1. cbn. eapply IH. exact H2.
+Qed.
+
+(* FULL STATEMENT mixture_equivalent (DESIGN §5 C19): argv ++ --job-json-file(partial) is equivalent to the merged job, over all option tables.
+   PROVED for the jobs of nested_equivalent_partial: the command line  <j1> --job-json-file=F <j3>  makes the calls of j1, then
+   Config::jobJsonFile(F), then the calls of j3 and the consistency check; reading F as a partial job (initializeFromJson(.., true))
+   where F holds the job JSON of j2 makes exactly the calls of j2 (and no consistency check); and the merged command line
+   <j1> <j2> <j3> makes the calls of j1, j2, j3 and the consistency check.  What Config::jobJsonFile does in between (reading the file,
+   JSON::parse) is outside the front-end model and exercised by the 'cli-mix' rendering of the end-to-end runs. *)
+Lemma mixture_equivalent_partial_lemma : forall files e F j1 j2 j3,
+  ae_target e = TConfig C_MAIN B"jobJsonFile" -> ae_kind e = KParam ->
+  wf_job argv_table (j1 ++ [IOpt e F] ++ j3) -> wf_job argv_table (j1 ++ j2 ++ j3) ->
+  snd (denote_items j1) = true -> snd (denote_items j2) = true -> snd (denote_items j3) = true ->
+  front_argv files (render_argv (j1 ++ [IOpt e F] ++ j3)) =
+    mk_fe_res (fst (denote_items j1) ++ [CCall C_MAIN B"jobJsonFile" [F]] ++ fst (denote_items j3) ++ [CHECK]) EFin /\
+  front_json true (render_json j2) = mk_fe_res (fst (denote_items j2)) EFin /\
+  front_argv files (render_argv (j1 ++ j2 ++ j3)) =
+    mk_fe_res (fst (denote_items j1) ++ fst (denote_items j2) ++ fst (denote_items j3) ++ [CHECK]) EFin.
+Proof.
+  intros files e F j1 j2 j3 Htg Hkind Hwf1 Hwf2 H1 H2 H3.
+  assert (Hc : opt_denote e F = Some (CCall C_MAIN B"jobJsonFile" [F])).
+  { unfold opt_denote. rewrite Htg, Hkind. reflexivity. }
+  split; [|split].
+  - pose proof (argv_refines_spec_partial_lemma files _ Hwf1) as HA. unfold res_is in HA.
+    rewrite (denote_items_app j1 _ H1) in HA. cbn [fst snd] in HA.
+    cbn [app denote_items denote_item] in HA. rewrite Hc in HA.
+    destruct (denote_items j3) as [cs3 ok3] eqn:H3'. cbn [fst snd] in *. subst ok3.
+    cbn [fst snd app] in HA. cbn [app]. rewrite HA. rewrite <- app_assoc. reflexivity.
+  - destruct Hwf2 as [Hwf2 _]. apply json_partial_refines; auto.
+    apply Forall_app in Hwf2. destruct Hwf2 as [_ Hwf2]. apply Forall_app in Hwf2. tauto.
+  - pose proof (argv_refines_spec_partial_lemma files _ Hwf2) as HA. unfold res_is in HA.
+    rewrite (denote_items_app j1 _ H1) in HA. rewrite (denote_items_app j2 _ H2) in HA. cbn [fst snd] in HA.
+    rewrite H3 in HA. rewrite HA. rewrite <- !app_assoc. reflexivity.
+Qed.
+
+(* the option table does contain that entry *)
+Lemma job_json_file_entry_lemma :
+  existsb (fun e => otarget_eqb (ae_target e) (TConfig C_MAIN B"jobJsonFile") && okind_eqb (ae_kind e) KParam && main_scalar e) argv_table = true.
+Proof. vm_compute. reflexivity. Qed.
